@@ -20,7 +20,7 @@ Lemma not_executable_uncrossed m b bs s ss :
   (price b <> None \/ price s <> None) ->
   exists pb ps, price b = Some pb /\ price s = Some ps /\ (pb < ps)%Q.
 Proof.
-  unfold executable. intros H Hb Hs Hl. rewrite Hb, Hs in H.
+  unfold executable, executable_b. intros H Hb Hs Hl. rewrite Hb, Hs in H.
   destruct (price s) as [ps|] eqn:Es, (price b) as [pb|] eqn:Eb; try discriminate.
   - exists pb, ps. repeat split; auto. unfold qleb in H.
     apply Qnot_le_lt. intro C. apply Qle_bool_iff in C. congruence.
